@@ -220,6 +220,32 @@ fn c08_one(rep: &mut Report, fam: &str, r: &RVal) {
 		("format!(\"{:+}\")", guard(|| format!("{:+}", v))),
 		("format!(\"{:+}\", compact_print())", guard(|| format!("{:+}", v.compact_print()))),
 	];
+	// width, fill and precision: a format specification may be ignored or applied to the rendering as a
+	// whole (as `str` does), it must never reach the tokens inside the document
+	if want.len() <= 200 {
+		macro_rules! spec {
+			($fmt:literal) => {{
+				for (name, got) in [(concat!("format!(\"", $fmt, "\")"), guard(|| format!($fmt, v))), (concat!("format!(\"", $fmt, "\", compact_print())"), guard(|| format!($fmt, v.compact_print())))] {
+					rep.count("renderings_compared", 1);
+					let whole = format!($fmt, want.as_str());
+					match got {
+						Err(p) => rep.violation("C08:panic", format!("[{}] {} panicked on {}: {}", fam, name, show(want.as_bytes()), p), json!({"sub": "compact", "value_compact": want})),
+						Ok(g) if g != want && g != whole => rep.violation(
+							format!("C08:bytes-differ:{}", name),
+							format!("[{}] {} = `{}`; expected `{}` (specification ignored) or `{}` (applied to the whole text)", fam, name, show(g.as_bytes()), show(want.as_bytes()), show(whole.as_bytes())),
+							json!({"sub": "compact", "value_compact": want}),
+						),
+						Ok(_) => (),
+					}
+				}
+			}};
+		}
+		spec!("{:8}");
+		spec!("{:.3}");
+		spec!("{:>12}");
+		spec!("{:*^9.2}");
+		spec!("{:010.1}");
+	}
 	for (name, got) in forms {
 		rep.count("renderings_compared", 1);
 		match got {
@@ -314,6 +340,29 @@ pub fn run_c08(cfg: &Config) -> i32 {
 		rep
 	});
 	total.merge(rep);
+	// values nested 130..300 levels with several members at every level (and at the bottom)
+	{
+		let rep = parallel(cfg.threads, 8, |i| {
+			let mut rep = Report::new();
+			for depth in [129usize, 130, 200, 257, 300] {
+				let mut r = RVal::Arr(vec![RVal::Num("1".into()), RVal::Str("two".into()), RVal::Obj(vec![("a".into(), RVal::Null), ("b".into(), RVal::Bool(true))])]);
+				for d in 0..depth {
+					r = match (d + i) % 4 {
+						0 => RVal::Arr(vec![RVal::Num(d.to_string()), r, RVal::Bool(false)]),
+						1 => RVal::Obj(vec![("p".into(), RVal::Num(d.to_string())), ("q".into(), r), ("r".into(), RVal::Null)]),
+						2 => RVal::Arr(vec![r]),
+						_ => RVal::Obj(vec![("k".into(), r), ("k".into(), RVal::Str("dup".into()))]),
+					};
+				}
+				c08_one(&mut rep, "deep-values", &r);
+				rep.distinct_by_construction(1);
+				rep.max("deepest_compact_printed_nesting", depth as u64);
+				crate::oracle::rfc8259::drop_iter(r);
+			}
+			rep
+		});
+		total.merge(rep);
+	}
 	// values wider than 65,535 printed characters
 	{
 		let mut rep = Report::new();
@@ -630,6 +679,19 @@ fn run_print(cfg: &Config, id: &'static str) -> i32 {
 		// long strings
 		let mut l = sh;
 		while l <= 2200 {
+			// strings made of one kind of character only (1, 2, 3 and 4 bytes each), widths straddled by the limits
+			if l >= 1 && l <= 130 {
+				for ch in ["a", "\u{e9}", "\u{20ac}", "\u{1f600}"] {
+					let s = ch.repeat(l);
+					let r = RVal::Arr(vec![RVal::Str(s.clone()), RVal::Obj(vec![(s.clone(), RVal::Str(s))])]);
+					let v = from_rval(&r);
+					for _ in 0..3 {
+						let o = random_record(&mut rng, &r);
+						mon.one("long-strings", &r, &v, &o);
+						mon.rep.distinct_by_construction(1);
+					}
+				}
+			}
 			// plain keys and strings of exactly this length, numbers with digit runs of this length
 			if l <= 700 {
 				let digits: String = (0..l.max(1)).map(|k| char::from(b'1' + ((k * 7 + l) % 9) as u8)).collect();
